@@ -86,6 +86,18 @@ def run(spec):
         return res
     finally:
         shutil.rmtree(tmp, ignore_errors=True)
+        _purge()
+
+
+def _purge():
+    """the analyser's per-repository caches are keyed by object identity: drop them after each mutated copy"""
+    import gc
+    for name, mod in list(sys.modules.items()):
+        if name.startswith("sa.") or name == "sa":
+            for k, v in list(vars(mod).items()):
+                if k.startswith("_") and k.upper() == k and isinstance(v, dict):
+                    v.clear()
+    gc.collect()
 
 if __name__ == "__main__":
     if "--benign" in sys.argv:
